@@ -10,15 +10,6 @@ The parser is run at the depth `core F (D + 4)` so that every form's recursion b
 namespace Cxx
 open P
 
-theorem Yields.cons_inv {cfg : LexCfg} {b b' : Buf} {t : Tok} {ts : List Tok} (h : Yields cfg b (t :: ts) b') :
-    ∃ b1, tokenEofOk cfg b = .ok (some t, b1) ∧ Yields cfg b1 ts b' := by
-  cases h with
-  | cons h1 h2 => exact ⟨_, h1, h2⟩
-
-theorem Yields.single_inv {cfg : LexCfg} {b b' : Buf} {t : Tok} (h : Yields cfg b [t] b') :
-    tokenEofOk cfg b = .ok (some t, b') := by
-  cases h with
-  | cons h1 h2 => cases h2; exact h1
 
 /-- an item that is ONE iteration delivering ONE callback and moving only the block's location -/
 def Item.single {env : Env} {F : Nat} {c : Core} (At : Buf → Buf → Prop) (E : Block → List Block → Event → Prop)
